@@ -265,6 +265,13 @@ def queued_agg(body, b):
     return None
 
 
+def _entity_scheduler_path(prog):
+    try:
+        return A.entity_scheduler(prog)[0].path
+    except mir.AnchorLost:
+        return None
+
+
 def check(ctx):
     ctx.explanation = EXPLANATION
     ctx.not_decided = NOT_DECIDED
@@ -538,17 +545,17 @@ def check(ctx):
                 if fld in ag.get("fields", []):
                     eo = tuple(sorted(map(tuple, origins(body, ag["ops"][ag["fields"].index(fld)])), key=str))
                     ent = src[1]
-                    ctx.check(ent == ("?",) or eo == ent or body.raw.get("name") == "schedule_entity_reaction_impl", "C01.d",
+                    ctx.check(ent == ("?",) or eo == ent or body.path == _entity_scheduler_path(prog), "C01.d",
                               "%s:lookup-entity=trigger-entity" % fk, body.loc(e),
                               "the EntityReactors looked up belong to the entity reported in the command",
                               "reactors are looked up on %s but the command reports %s" % (ent, eo))
     # callers of the shared entity-scoped scheduler pass the same entity to the lookup and to the scheduler
     try:
-        impl = A.free_fn(prog, "schedule_entity_reaction_impl")
+        impl, ent_i, rea_i = A.entity_scheduler(prog)
         for (body, b, t, fr) in prog.callers_of(lambda n: n == impl.path):
             ctx.touch(body)
-            ent = tuple(sorted(map(tuple, origins(body, t["args"][1])), key=str))
-            src2 = LP.coll_source(body, t["args"][3])
+            ent = tuple(sorted(map(tuple, origins(body, t["args"][ent_i - 1])), key=str))
+            src2 = LP.coll_source(body, t["args"][rea_i - 1])
             ctx.check(src2 is not None and src2[0] == "entity_component" and src2[1] == ent, "C01.d",
                       "%s:lookup-entity=trigger-entity" % lib.fkey(body), body.loc(b),
                       "EntityReactors passed to the shared scheduler are those of the reported entity",
@@ -623,7 +630,7 @@ def absent_or_empty_arms(prog, body, src):
                 if eq_t is not None:
                     out.append(eq_t)
     # the shared entity-scoped scheduler refuses the Event variant explicitly (entity events have their own scheduler)
-    if body.raw.get("name") == "schedule_entity_reaction_impl":
+    if body.path == _entity_scheduler_path(prog):
         for sb, place, targets, otherwise in lib.discr_switches(body):
             if "EntityReactionType" in lib.place_type(body, place):
                 res = lib.enum_arms(body, prog, sb)
